@@ -141,4 +141,25 @@ def computeIdDkg (minerId : String) : Option Fr :=
   if minerId.length < 31 then none
   else (hexNat? ('1' :: (minerId.toList.take 31))).map Fr.ofNat
 
+/-! ### the id of a client threshold share as a string (`GetID` / `SetID`, `bls0chain_threshold.go`)
+
+`GetID` renders the id in hexadecimal (`GetHexString`), `SetID` parses hexadecimal (`SetHexString`): the multisig
+contract stores the string at registration and rebuilds the share object from it before reconstruction. Digits are
+modelled as their values, most significant first. -/
+
+/-- digits of `n` in base `b`, most significant first (fuel-bounded: `fuel` digits at most). -/
+def digitsOf (b : Nat) : Nat → Nat → List Nat
+  | 0, _ => []
+  | fuel + 1, n => if n < b then [n] else digitsOf b fuel (n / b) ++ [n % b]
+
+/-- the number a digit string denotes in base `b`. -/
+def parseDigits (b : Nat) (ds : List Nat) : Nat := ds.foldl (fun a d => a * b + d) 0
+
+def showHex (n : Nat) : List Nat := digitsOf 16 64 n
+def showDec (n : Nat) : List Nat := digitsOf 10 80 n
+def parseHex (ds : List Nat) : Nat := parseDigits 16 ds
+
+/-- `SetID(GetID(share))`: the id after the string round trip (ids are `1 … n`, far below `16^64`). -/
+def idRoundTrip (id : Nat) : Option Nat := if id < 16 ^ 64 then some (parseHex (showHex id)) else none
+
 end ZChain.DKG
